@@ -22,7 +22,7 @@ EXPLANATION = (
     "in-loop OPTIMAL is dominated by all three convergence atoms whose operands are def-use descendants of the primal "
     "residual, dual residual and complementarity gap, FEASIBLE by a primal residual test with literal tolerance <= "
     "0.01, nothing after the loop is OPTIMAL; (O4) sign units - the cost vector is negated exactly when minimize is "
-    "false and every published non-constant objective is negated back under the same condition. (O6) interior_point.py contains no float operation of a shape that can raise on diverged iterates (no float power, every divisor bounded away from zero, every sqrt argument non-negative by construction). NOT decided: "
+    "false and every published non-constant objective is negated back under the same condition. (O6) interior_point.py contains no float operation of a shape that can raise on diverged iterates (no float power, every divisor bounded away from zero, every sqrt argument non-negative by construction). (O7) the tableau engine (entering rule, ratio test, pivot, extraction), statement group by statement group. NOT decided: "
     "feasibility within tolerance, equality with the true optimum, UNBOUNDED/INFEASIBLE discrimination, Bland "
     "termination, absence of crashes (numerical)."
 )
@@ -33,6 +33,16 @@ def run(ctx: Ctx):
     check_simplex_verdicts(ctx)
     check_interior(ctx)
     check_no_raising_float_ops(ctx)
+    from .sat_common import _need
+
+    p2 = ctx.func("simplex", "_phase2")
+    _need(ctx, "C03-O7", "R21 search discipline", p2, "entering column: the first non-basic column with a negative reduced cost (Bland); none -> OPTIMAL", ["enter = -1\n        for j in range(n_cols - 1):\n            if j not in basis_set and matrix[-1][j] < -eps:\n                enter = j\n                break", "if enter == -1:\n            return (Status.OPTIMAL, iteration, matrix, basis, basis_set)"])
+    _need(ctx, "C03-O7", "R30 ACCUMULATOR-PAIRING", p2, "leaving row: minimum ratio over the rows with a positive entry, ties by the smaller basic index; no such row -> UNBOUNDED", ["leave, min_ratio = (-1, float('inf'))", "if matrix[i][enter] > eps:\n                ratio = matrix[i][-1] / matrix[i][enter]\n                if ratio < min_ratio - eps:\n                    min_ratio, leave = (ratio, i)\n                elif abs(ratio - min_ratio) <= eps:\n                    if leave == -1 or basis[i] < basis[leave]:\n                        leave = i", "if leave == -1:\n            return (Status.UNBOUNDED, iteration, matrix, basis, basis_set)", "for i in range(m):"])
+    _need(ctx, "C03-O7", "R16 PAIRED-EFFECTS", p2, "after the pivot the basis label and the basis set move together", ["matrix = _pivot(matrix, m, leave, enter, eps)\n        basis_set.discard(basis[leave])\n        basis[leave] = enter\n        basis_set.add(enter)"])
+    pv = ctx.func("simplex", "_pivot")
+    _need(ctx, "C03-O7", "R16 PAIRED-EFFECTS", pv, "pivot: the pivot row is scaled to a unit entry, every other row (objective row included) is cleared in the pivot column", ["inv = 1.0 / pivot_val\n    for j in range(n_cols):\n        matrix[row][j] *= inv", "for i in range(m + 1):\n        if i != row:\n            f = matrix[i][col]\n            if abs(f) > eps:\n                for j in range(n_cols):\n                    matrix[i][j] -= f * matrix[row][j]", "return matrix"])
+    ex = ctx.func("simplex", "_extract")
+    _need(ctx, "C03-O7", "R5 PAIRING", ex, "the point is read off the basic rows of the structural variables; the objective is the negated corner cell, mirrored back for maximisation", ["solution = [0.0] * n", "for i in range(m):\n        if basis[i] < n:\n            solution[basis[i]] = matrix[i][-1]", "obj = -matrix[-1][-1]\n    if not minimize:\n        obj = -obj", "return Result(tuple(solution), obj, iters, iters, status)"])
     sl = ctx.func("interior_point", "_step_length")
     tsl = ast.unparse(sl.node)
     ctx.ob("C03-O3", "R18 table", sl, "step length = min(1, min over decreasing components of -v/dv), never negative (iterates stay non-negative)", "alpha = 1.0" in tsl and "if dv[j] < -1e-12:\n            alpha = min(alpha, -v[j] / dv[j])" in tsl and "return max(0.0, alpha)" in tsl and "for j in range(n):" in tsl, "", node=sl.node)
@@ -481,6 +491,14 @@ def _v_ratio_threshold(tree):
     M.replace_expr(g, lambda e: M.src_is(e, "matrix[i][enter] > eps"), M.expr("matrix[i][enter] > 0"))
 
 
+def _v_ratio_rows_off_by_one(tree):
+    g = M.find_func(tree, "_phase2")
+    loops = [n for n in ast.walk(g) if isinstance(n, ast.For) and M.src_is(n.iter, "range(m)")]
+    if not loops:
+        raise M.Skip("ratio loop not found")
+    loops[0].iter = M.expr("range(m - 1)")
+
+
 def _v_ip_pow(tree):
     g = M.find_func(tree, "solve_lp_interior")
     M.replace_expr(g, lambda e: isinstance(e, ast.BinOp) and M.src_is(e, "r * r"), M.expr("r ** 2"), count=2)
@@ -533,6 +551,7 @@ VARIANTS = [
     M.Variant("final residual norm squared with ** 2 (original defect)", IP, _v_ip_pow_final, "C03-O6"),
     M.Variant("Newton scaling divides by z[j] without the eps clamp", IP, _v_ip_divisor_unclamped, "C03-O6"),
     M.Variant("Mehrotra ratio divides by mu under `mu >= 0`", IP, _v_ip_ratio_unguarded, "C03-O6"),
+    M.Variant("ratio test leaves the last constraint row out", SX, _v_ratio_rows_off_by_one, "C03-O7"),
     M.Variant("twin: reformat", SX, _t_reformat, None),
     M.Variant("twin: reformat interior", IP, _t_reformat, None),
     M.Variant("twin: rename status locals", SX, _t_rename, None),
